@@ -121,7 +121,7 @@ def run(chk: harness.Check):
             chk.fail("anchor-missing", f"{region}", "", f"anchor-missing: gate function {region} not found")
             continue
         for sel in e.get("guarded", []):
-            occ = select(F, region, sel)
+            occ = [o for alt in sel.split("|") for o in select(F, region, alt)]      # `a|b`: equivalent spellings of one construct
             key = f"{region}|{flag}|{sel}"
             if not occ:
                 chk.fail("anchor-missing", key, "", f"anchor-missing: construct `{sel}` guarded by {flag} no longer occurs in {region}")
